@@ -18,9 +18,9 @@ _PROVED = {
  "C15": "Proved (Props/C15.v): every method on a lexically non-hidden comparable name is forwarded as exactly one call with unchanged arguments (Create/Open as OpenFile with their flags), siblings sharing a string prefix are not hidden, an empty hidden set is the identity. Effects on real trees: twin runs; listings of directories without hidden entries batch by batch. ",
  "C18": "Proved (Props/C18.v): on Linux (empty volume) every VolumeFS call is forwarded with Clean'ed arguments, identity on cleaned names, idempotent, Readlink cleans the target. The Windows half (drive letters) is not executable here and is not claimed beyond the model of the string functions. ",
  "C19": "Proved (Props/C19.v): the depth order is a strict total order refining 'ancestor before descendant' (C19_less_*), both sorts return the unique sorted permutation whatever the input order (C19_perm_independent_*), IterateDirTree visits exactly the ancestor chain root-first and stops where told (C19_iterate, C19_iterate_stop, C19_chain_spec). ",
- "C01": "Proved (Props/C01.v, no axioms): for any two filesystems satisfying the laws of Spec/Laws.v, Spec/Laws2.v w.r.t. abstract views, any history of covered operations (every operation of the API except ForceBackup, on resolved names, not following a final symlink, Rename of a childless source, RemoveAll not of the root, no type change) followed by Rollback returns nil, restores the base view (root metadata and directory timestamps aside) and empties backup and bookkeeping (C01_rollback_restores_partial); Rollback from any state satisfying the invariant (C01_rollback_from_invariant). The unrestricted statement is refuted in the model (C01_full_refuted_D14 = recorded finding). The laws are proved for the concrete PrefixFS-over-OS model with two disjoint prefixes (Proofs/LawsOsfs*.v): C01_concrete_partial is a closed theorem about cfg_base/cfg_backup of the layering 'generic p q' that the correspondence check runs against the code; also closed for the documented layering 'HiddenFS hiding the backup location inside a PrefixFS base' (C01_documented_partial, Proofs/LawsHidden*.v; api_laws generalised by the predicates hid/anc); for New/NewWithFS (HiddenFS over the unprefixed OS filesystem) the tie alone connects the theorem to the code. ",
+ "C01": "Proved (Props/C01.v, no axioms): for any two filesystems satisfying the laws of Spec/Laws.v, Spec/Laws2.v w.r.t. abstract views, any history of covered operations (every operation of the API except ForceBackup, on resolved names, not following a final symlink, Rename of a childless source, RemoveAll not of the root, no type change) followed by Rollback returns nil, restores the base view (root metadata and directory timestamps aside) and empties backup and bookkeeping (C01_rollback_restores_partial); Rollback from any state satisfying the invariant (C01_rollback_from_invariant). The unrestricted statement is refuted in the model (C01_full_refuted_D14 = recorded finding). The laws are proved for the concrete PrefixFS-over-OS model with two disjoint prefixes (Proofs/LawsOsfs*.v): C01_concrete_partial is a closed theorem about cfg_base/cfg_backup of the layering 'generic p q' that the correspondence check runs against the code; also closed for the documented layering 'HiddenFS hiding the backup location inside a PrefixFS base' (C01_documented_partial, Proofs/LawsHidden*.v; api_laws generalised by the predicates hid/anc); and for the layering of the constructors New/NewWithFS, HiddenFS directly over the OS filesystem (C01_new_partial, Proofs/LawsRoot*.v, LawsNew*.v): the theorems are closed for the layerings of all five configurations the correspondence check runs. ",
  "C03": "Proved (Props/C03.v, for arbitrary filesystems, every world): Lstat/Stat/Readlink/Open/OpenFile(O_RDONLY) through BackupFS are exactly one call of the base, invoke nothing on the backup (trap_api) and no mutating base method, leave baseInfos alone. Mutating operations (Proofs/Transparent.v; 39 statements in Props/C03.v; closed for the generic and the documented layering): after a successful resolution and backup step the operation is the base's own operation on the resolved name; for covered operations the backup step leaves the base view untouched and the operation equals the direct one on a base showing the same view, or fails with the backup's error leaving the base view unchanged; it changes the base view at most at the named entry (C03_affects_only_named); RemoveAll of an absent path returns nil. Names with symlinked parents, D14/D12/K6 and error classes: twin oracle. ",
- "C04": "Proved (Props/C04.v, 28 theorems, HiddenFS over ANY filesystem): every method on every spelling of a name lexically at/below the location is rejected with the world unchanged; listings never reveal it; no BackupFS operation invokes any method of the underlying or the backup filesystem on a hidden name (C04_universal_seal); operations whose resolved name is at/below it do not succeed and mutate nothing underneath; the location is never backed up into itself. Lexical on the resolved name (D9/D17 recorded). Rollback keeps working for everything outside the location, histories that RemoveAll or Rename a parent of it included: C04_rollback_documented_partial (closed theorem for the documented HiddenFS-inside-PrefixFS layering) + example + oracle. ",
+ "C04": "Proved (Props/C04.v, 28 theorems, HiddenFS over ANY filesystem): every method on every spelling of a name lexically at/below the location is rejected with the world unchanged; listings never reveal it; no BackupFS operation invokes any method of the underlying or the backup filesystem on a hidden name (C04_universal_seal); operations whose resolved name is at/below it do not succeed and mutate nothing underneath; the location is never backed up into itself. Lexical on the resolved name (D9/D17 recorded). Rollback keeps working for everything outside the location, histories that RemoveAll or Rename a parent of it included: C04_rollback_documented_partial and C04_rollback_new_partial (closed theorems for the HiddenFS-inside-PrefixFS layering and for New/NewWithFS) + examples + oracle. ",
  "C08": "Proved (Props/C08.v, 21 theorems, for arbitrary filesystems and every world incl. faults/crash points): taking a backup never invokes a mutating base method; if the backup of any mutating operation fails the operation returns that failure in exactly the world the failed backup left (fail-stop), Rename for each of its two backups, RemoveAll per entry. Props/C08_faults.v (over the laws + fault laws, closed for the concrete generic layering): under every single-fault plan every covered operation keeps the transaction invariant, and a fault on the backup filesystem during a backup-taking operation yields an error with the base view unchanged; afterwards Rollback restores (C09_faults). Multi-fault plans: enumeration (two faults can break the clean-up of a partial copy: the boundary the proof identified). ",
  "C13": "Proved (Props/C13.v, arbitrary filesystems): every call Rollback makes on either filesystem is on a path tracked when it started (guard_api), on the backup only Lstat/Open/Readlink/Remove. What base.RemoveAll/MkdirAll do inside the method is covered by the oracle (foreign entries survive). ",
  "C16": "Proved (Props/C16.v, 37 theorems, concrete model of resolvePathWithInfo over the modelled kernel walk): termination and read-onlyness for every world and name; no fuel exhaustion for any topology within a size bound; under the exclusion of the recorded deviations (D17, K2 - boolean triggers): no symlink among the parents of the result, same entry as the caller's name under the kernel walk (unless the kernel answers ELOOP = recorded finding K8), final component unresolved, missing tail lexical. Relative names (working directory = root) proved as well (C16_relative_*). ",
